@@ -270,12 +270,16 @@ fn gen_list(r: &mut Rng) -> Vec<u8> {
     let keys = ["a", "b", "key", "k2", "x:y", "a", "=k", "a"];
     let vals = ["v", "", " ", "a b", "x=y", ">", "c='3", "d=\"4", "  ", "\t", "é", "/"];
     let n = 1 + r.below(6);
+    // now and then a key of 63..=130 bytes, used more than once in the same tag (the duplicate check
+    // must not depend on the length of the name), and a long value
+    let long_key: String = if r.chance(1, 12) { "k".repeat([63, 64, 65, 127, 128, 130][r.below(6)]) } else { String::new() };
+    let long_val: String = if r.chance(1, 16) { "v ".repeat([16, 32, 33, 64, 100][r.below(5)]) } else { String::new() };
     for _ in 0..n {
-        out.extend_from_slice(r.pick(&[" ", "  ", "\t", "\n", " \t "]).as_bytes());
-        let k = *r.pick(&keys);
-        let v = *r.pick(&vals);
-        let sp1 = *r.pick(&["", "", " ", "  "]);
-        let sp2 = *r.pick(&["", "", " ", "\t"]);
+        out.extend_from_slice(r.pick(&[" ", "  ", "\t", "\n", " \t ", "\r", "\r\n", "\r\n\t"]).as_bytes());
+        let k = if !long_key.is_empty() && r.chance(2, 3) { long_key.as_str() } else { *r.pick(&keys) };
+        let v = if !long_val.is_empty() && r.bool() { long_val.as_str() } else { *r.pick(&vals) };
+        let sp1 = *r.pick(&["", "", " ", "  ", "\r"]);
+        let sp2 = *r.pick(&["", "", " ", "\t", "\r\n"]);
         match r.below(12) {
             0 => {
                 // missing '='
@@ -316,7 +320,7 @@ fn gen_list(r: &mut Rng) -> Vec<u8> {
         }
     }
     if r.chance(1, 4) {
-        out.extend_from_slice(r.pick(&[" ", "/", " /", "  "]).as_bytes());
+        out.extend_from_slice(r.pick(&[" ", "/", " /", "  ", "\r", "\r\n"]).as_bytes());
     }
     out
 }
